@@ -5,5 +5,10 @@ func moreGens() []struct {
 	name string
 	fn   func() string
 } {
-	return nil
+	return []struct {
+		name string
+		fn   func() string
+	}{
+		{"Safety.v", genSafety}, // C03
+	}
 }
